@@ -100,10 +100,19 @@ CHECKS = {
                       'spellings of one file from three working directories is run through redo, redo -j2 and redo-ifchange.',
                 note='trusted: TLC; the symlink-free tree of the reference (symlinked directories only through the real command lines); '
                      'project-base discovery pinned by a .redo directory in the scratch project'),
+    'C18': dict(engine='RedoLog', design='DESIGN.md section 4 C18',
+                technique='TLA+ model checking (TLC) of RedoLog (log files, writers, recursive lock-aware follower) and RedoMeta (record '
+                          'format/parse round trip) + conformance: Meta::parse on every TLC-enumerated line, raw live and replay streams '
+                          'of real builds validated by TLC against TraceLog',
+                level='TLC checks on every interleaving of script writes, record appends, lock releases and follower reads that every '
+                      'line is shown once, in order and under its target (live and replay), and that records survive format/parse for '
+                      'every text over a small alphabet; the real parser is compared on every enumerated line; the raw output of real '
+                      'parallel builds and of redo-log -r is tokenised and validated line by line by TLC.',
+                note='trusted: TLC; the attribution rule (last do/resumed record) as the reading a user applies to the stream; '
+                     'self-identifying script lines; forged valid records are out of scope'),
 }
 
 PENDING = {
-    'C18': 'check under construction (RedoLog/RedoMeta); not claimed yet',
 }
 
 
@@ -125,6 +134,10 @@ def main():
              'serves_properties': sorted(k for k, c in CHECKS.items() if c.get('engine') == 'RedoJobs'),
              'kind_free_text': 'TLA+ specification of the jobserver token protocol and the scheduler loop at poll-cycle '
                                'granularity; TLC; TraceJobs.tla validates recorded token events of the real binaries'},
+            {'name': 'RedoLog', 'path': 'spec/RedoLog.tla',
+             'serves_properties': sorted(k for k, c in CHECKS.items() if c.get('engine') == 'RedoLog'),
+             'kind_free_text': 'TLA+ specification of per-target log files and the recursive log follower (with RedoMeta for the '
+                               'record grammar); TLC; TraceLog.tla validates tokenised real output streams'},
             {'name': 'RedoPaths', 'path': 'spec/RedoPaths.tla',
              'serves_properties': sorted(k for k, c in CHECKS.items() if c.get('engine') == 'RedoPaths'),
              'kind_free_text': 'TLA+ transcription of normpath / relpath / .do candidate enumeration next to an independent '
